@@ -3,7 +3,7 @@
 From Coq Require Import List ZArith Bool Lia.
 From TskVerif Require Import Base.Common C03.Model C03.Spec C03.ArrayProofs C03.AlleleProofs
      C03.PaintProofs C03.DecodeProofs C03.TraverseProofs C03.RuleProofs C03.CheckProofs C03.TotalProofs
-     C03.DfsTotalProofs C03.MutParents C03.ParentProofs.
+     C03.DfsTotalProofs C03.MutParents C03.ParentProofs C03.SeekProofs C03.SampleListProofs.
 Import ListNotations.
 Open Scope Z_scope.
 
@@ -160,3 +160,33 @@ Example ex_parents_violation :
   mut_parents (par_of ex_parent) 9 [4; 5] = Some [1; -1] /\
   parents_ok_b (par_of ex_parent) 9 [4; 5] [1; -1] = false.
 Proof. split; vm_compute; reflexivity. Qed.
+
+(* the local sample-list invariant holds on the example arrays, and with the node-time rank it
+   yields the semantic sample_lists_rep (sample_lists_from_local is not vacuous) *)
+Example ex_local : sample_lists_local_b ex_fuel ex_tree 7 (v_index_map ex_v1) = true.
+Proof. vm_compute. reflexivity. Qed.
+Definition ex_rank (u : Z) : nat := if u =? 5 then 2%nat else if u =? 4 then 1%nat else 0%nat.
+Example ex_rank_ok : forall c p, par_of ex_parent c = Some p -> (ex_rank c < ex_rank p)%nat.
+Proof.
+  intros c p H. pose proof (par_of_range _ _ _ H) as R. unfold zlen in R. simpl in R.
+  assert (C : c = 0 \/ c = 1 \/ c = 2 \/ c = 3 \/ c = 4 \/ c = 5 \/ c = 6) by lia.
+  destruct C as [-> | [-> | [-> | [-> | [-> | [-> | ->]]]]]]; vm_compute in H; inversion H; subst; vm_compute; lia.
+Qed.
+Example ex_sample_lists_from_local :
+  sample_lists_rep (par_of ex_parent) ex_fuel ex_tree 7 (v_samples ex_v1).
+Proof.
+  destruct (hyps_b_sound _ _ _ _ ex_hyps1) as ((PD & IM & KR & _) & _).
+  exact (sample_lists_from_local_l (par_of ex_parent) ex_fuel ex_tree 7 _ _ ex_rank PD KR IM ex_rank_ok
+           (sample_lists_local_b_sound _ _ _ _ ex_local)).
+Qed.
+
+(* the seek theorems: a (trivial, one-tree) navigation satisfying C06's contract, a history with a
+   failed decode in it, and then a decode whose result is the rule's *)
+Example ex_seek_history :
+  let seek := fun (_ : tree) (_ : Z) => ex_tree in
+  let on_error := fun st : vstate => st in
+  let o0 : vobj := (ex_tree', mkState [9; 9; 9; 9; 9] [[1]] true) in
+  let hist := [(0, ex_site); (0, mkSite A [(99, C)])] in      (* the second one fails: OOB node *)
+  snd (decode_obj seek on_error ex_fuel ex_v1 (run seek on_error ex_fuel ex_v1 o0 hist) (0, ex_site))
+  = Ok ([1; 3; 1; -1; 2], [A; C; G; T], true).
+Proof. vm_compute. reflexivity. Qed.
